@@ -16,6 +16,19 @@ CHECKS = {
              "object. Bounded model checking: the table is enumerated, the amount is universally quantified by the solver.",
         note="floats modelled as exact reals (rounding outside the claim); tolerance 1e-13 relative; shims for float()/math.pow; z3 5.1.0 trusted",
         ref="DESIGN.md §4 C01"),
+    "C03": dict(
+        text="One +/- step from operands that the real operators built (shapes over length/time/mass, exponents -3..3, differing units and "
+             "categories on both sides): on every path z3 proves for ALL real leaf amounts that the base-unit magnitude of a+-b equals "
+             "mag(a)+-mag(b) under an independent dimensional model, that the result carries the left operand's quantity, that (a+b)-b ~ a "
+             "and a+b ~ b+a. Bounded by the enumerated shapes/unit assignments; unbounded in the values.",
+        note="floats as exact reals; scale-only units; NRA queries to z3 with 20 s timeout (unknown => exit 2); shims for float()",
+        ref="DESIGN.md §4 C03"),
+    "C04": dict(
+        text="One * / // ** step from operands built by the real operators: on every path the result's exponent vector equals the "
+             "sum/difference predicted by dimensional analysis (zero exponents gone, a/a dimensionless, a**n = n-fold) and z3 proves for ALL "
+             "real leaf amounts (non-zero divisors) that base-unit magnitudes multiply/divide, a*b ~ b*a, (a*b)/b ~ a, a//b = floor(a/b).",
+        note="floats as exact reals; scale-only units; NRA queries to z3 with 20 s timeout (unknown => exit 2); shims for float()",
+        ref="DESIGN.md §4 C04"),
 }
 
 NOT_APPLICABLE = {
